@@ -308,4 +308,230 @@ theorem write_sintvar_eq (v : Int) (nz : Bool) : write_sintvar v nz = ofR id (wr
       cases pos <;>
         simp [hc, signRoom, hb6, setSign, toBytes_cons_ofNat, hor]
 
+/-! ### `write_fraction` -/
+
+theorem listGen_ok {α : Type} (f : α → PyM Int) (g : α → Int) :
+    ∀ l : List α, (∀ x ∈ l, f x = .ok (g x)) → listGen l f = .ok (l.map g) := by
+  intro l
+  induction l with
+  | nil => intro _; rfl
+  | cons x xs ih =>
+    intro h
+    rw [listGen, h x (by simp), ok_bind, ih (fun y hy => h y (by simp [hy])), ok_bind]; rfl
+
+theorem fracSeptets_eq (d : Nat) : ∀ p, fracSeptets d p = (List.range p).map (fun k => d / 128 ^ (p - 1 - k) % 128) := by
+  intro p
+  induction p with
+  | zero => rfl
+  | succ p ih =>
+    rw [fracSeptets, List.range_succ_eq_map, List.map_cons, List.map_map, ih]
+    congr 1
+    apply List.map_congr_left
+    intro k _
+    simp only [Function.comp]
+    congr 3
+    omega
+
+theorem stripTrailing_zero : ∀ init : List Nat, init ≠ [] → stripTrailing (init ++ [0]) = stripTrailing init := by
+  intro init
+  induction init with
+  | nil => intro h; exact absurd rfl h
+  | cons x r ih =>
+    intro _
+    cases r with
+    | nil => simp [stripTrailing]
+    | cons y r' =>
+      have := ih (by simp)
+      simp only [List.cons_append, stripTrailing] at this ⊢
+      rw [this]
+      simp [List.all_append]
+
+theorem stripTrailing_nonzero : ∀ (init : List Nat) (z : Nat), z ≠ 0 → stripTrailing (init ++ [z]) = init ++ [z] := by
+  intro init z hz
+  induction init with
+  | nil => simp [stripTrailing]
+  | cons x r ih =>
+    simp only [List.cons_append, stripTrailing, ih]
+    simp [List.all_append, hz]
+
+theorem stripTrailing_mem : ∀ (L : List Nat) (x : Nat), x ∈ stripTrailing L → x ∈ L := by
+  intro L
+  induction L with
+  | nil => intro x h; simp [stripTrailing] at h
+  | cons y t ih =>
+    intro x h
+    unfold stripTrailing at h
+    split at h
+    · simp at h; simp [h]
+    · simp at h
+      rcases h with h | h
+      · simp [h]
+      · simp [ih x h]
+
+theorem flagAllButLast_eq : ∀ S : List Nat, flagAllButLast S = S.dropLast.map (fun s => Nat.lor s 128) ++ S.drop (S.length - 1) := by
+  intro S
+  induction S using flagAllButLast.induct with
+  | case1 => rfl
+  | case2 s => rfl
+  | case3 s t ht ih =>
+    cases t with
+    | nil => exact (ht rfl).elim
+    | cons y r =>
+      rw [flagAllButLast, ih]
+      · simp [List.dropLast]
+      · intro c; cases c
+
+theorem toBytes_map (l : List Nat) (h : ∀ x ∈ l, x < 256) : toBytes (l.map (fun x : Nat => (x : Int))) = .ok l := by
+  induction l with
+  | nil => rfl
+  | cons x xs ih =>
+    simp only [List.map_cons, toBytes_cons_ofNat, h x (by simp), if_true, ih (fun y hy => h y (by simp [hy])), ok_bind]
+
+
+/-- the `while len(septets) > 1 and septets[-1] == 0: septets.pop()` loop against the model's `stripTrailing` -/
+theorem loopStrip {ρ : Type} (body : List Int → PyM (Step (List Int) ρ))
+    (hb : ∀ (init : List Nat) (z : Nat), body ((init ++ [z]).map (fun x : Nat => (x : Int))) =
+      if init ≠ [] ∧ z = 0 then .ok (.next (init.map (fun x : Nat => (x : Int))))
+      else .ok (.brk ((init ++ [z]).map (fun x : Nat => (x : Int)))))
+    (hb0 : body [] = .ok (.brk [])) :
+    ∀ (n : Nat) (L : List Nat), L.length ≤ n →
+      whileFuel (n + 1) (L.map (fun x : Nat => (x : Int))) body
+        = .ok (.brk ((stripTrailing L).map (fun x : Nat => (x : Int)))) := by
+  intro n
+  induction n with
+  | zero =>
+    intro L hL
+    have : L = [] := List.eq_nil_of_length_eq_zero (by omega)
+    subst this
+    simp [whileFuel, hb0, stripTrailing]
+  | succ n ih =>
+    intro L hL
+    rcases List.eq_nil_or_concat L with rfl | ⟨init, z, rfl⟩
+    · simp [whileFuel, hb0, stripTrailing]
+    · simp only [List.concat_eq_append] at hL ⊢
+      rw [whileFuel, hb]
+      by_cases hc : init ≠ [] ∧ z = 0
+      · obtain ⟨hi, rfl⟩ := hc
+        simp only [hi, ne_eq, not_false_eq_true, and_self, if_true, ok_bind]
+        rw [ih init (by simp at hL; omega), stripTrailing_zero init hi]
+      · rw [if_neg hc]
+        simp only [ok_bind]
+        by_cases hz : z = 0
+        · have : init = [] := by
+            by_cases hi : init = []
+            · exact hi
+            · exact absurd ⟨hi, hz⟩ hc
+          subst this; subst hz
+          simp [stripTrailing]
+        · rw [stripTrailing_nonzero init z hz]; rfl
+
+theorem frac_gen (d p : Nat) :
+    (range3 ((p : Int) - 1) (-1) (-1) >>= fun l => listGen l fun i => do
+        let x ← shr (d : Int) (7 * i)
+        pure (band x 127)) = .ok ((fracSeptets d p).map (fun x : Nat => (x : Int))) := by
+  have hr : range3 ((p : Int) - 1) (-1) (-1)
+      = .ok ((List.range p).map (fun k => ((p : Int) - 1) + (-1) * Int.ofNat k)) := by
+    unfold range3
+    have e : ((((p : Int) - 1 - (-1) + (- (-1 : Int)) - 1) / (- (-1 : Int)))).toNat = p := by
+      have : (- (-1 : Int)) = 1 := by decide
+      rw [this]; omega
+    simp only [show ¬ ((-1 : Int) = 0) by decide, show ¬ ((0 : Int) < -1) by decide, if_false, e]
+    rfl
+  rw [hr, ok_bind]
+  rw [listGen_ok _ (fun i : Int => ((d / 128 ^ i.toNat % 128 : Nat) : Int))]
+  · rw [fracSeptets_eq, List.map_map, List.map_map]
+    congr 1
+    apply List.map_congr_left
+    intro k hk
+    have hk' : k < p := by simpa using hk
+    simp only [Function.comp]
+    have : ((p : Int) - 1 + -1 * Int.ofNat k).toNat = p - 1 - k := by
+      simp only [Int.ofNat_eq_natCast]; omega
+    rw [this]
+  · intro i hi
+    simp only [List.mem_map, List.mem_range] at hi
+    obtain ⟨k, hk, rfl⟩ := hi
+    have hj : (p : Int) - 1 + -1 * Int.ofNat k = ((p - 1 - k : Nat) : Int) := by
+      simp only [Int.ofNat_eq_natCast]; omega
+    rw [hj]
+    generalize p - 1 - k = j
+    unfold shr
+    have h1 : ¬ ((7 : Int) * (j : Int) < 0) := by omega
+    have h2 : ((7 : Int) * (j : Int)).toNat = 7 * j := by omega
+    rw [if_neg h1, h2]
+    simp only [pure_eq_ok, ok_bind, Int.toNat_natCast]
+    have h3 : (d : Int) / 2 ^ (7 * j) = ((d / 128 ^ j : Nat) : Int) := by
+      rw [show (128 : Nat) = 2 ^ 7 from rfl, ← Nat.pow_mul]; norm_cast
+    rw [h3, band_lit]
+    have : d / 128 ^ j &&& 127 = d / 128 ^ j % 128 := Nat.and_two_pow_sub_one_eq_mod _ 7
+    rw [this]
+
+theorem getI_last (l : List Int) (x : Int) : getI (l ++ [x]) (-1) = .ok x := by
+  unfold getI getItem normIndex
+  have h1 : ¬ ((0 : Int) ≤ -1) := by decide
+  have h2 : (0 : Int) ≤ -1 + ((l ++ [x]).length : Nat) := by simp; omega
+  have h3 : ((-1 : Int) + ((l ++ [x]).length : Nat)).toNat = l.length := by simp; omega
+  simp only [h1, if_false, h2, if_true, h3, pure_eq_ok, ok_bind]
+  simp
+
+theorem slice_to_last {α : Type} (l : List α) : slice l none (some (-1)) = l.dropLast := by
+  unfold slice clampIdx
+  have h : ((-1 : Int) + (l.length : Nat)).toNat = l.length - 1 := by omega
+  simp only [show ((-1 : Int) < 0) by decide, if_true, h, List.drop_zero, Nat.sub_zero, List.dropLast_eq_take]
+
+theorem slice_from_last {α : Type} (l : List α) : slice l (some (-1)) none = l.drop (l.length - 1) := by
+  unfold slice clampIdx
+  have h : ((-1 : Int) + (l.length : Nat)).toNat = l.length - 1 := by omega
+  simp only [show ((-1 : Int) < 0) by decide, if_true, h]
+  rw [List.take_of_length_le (by simp)]
+
+theorem write_fraction_eq (d p : Nat) : write_fraction (d : Int) (p : Int) = .ok (writeFraction d p) := by
+  unfold write_fraction writeFraction
+  rw [← bind_assoc, frac_gen, ok_bind]
+  have hF : ∀ x ∈ fracSeptets d p, x < 128 := by
+    intro x hx
+    rw [fracSeptets_eq] at hx
+    simp only [List.mem_map] at hx
+    obtain ⟨k, _, rfl⟩ := hx
+    omega
+  generalize fracSeptets d p = F at hF
+  have hfuel : (len (F.map (fun x : Nat => (x : Int))) + 1).toNat = F.length + 1 := by
+    simp only [len_eq, List.length_map]; omega
+  rw [hfuel, loopStrip _ ?hb ?hb0 F.length F (Nat.le_refl _)]
+  case hb =>
+    intro init z
+    have hlen : len (init.map (fun x : Nat => (x : Int)) ++ [(z : Int)]) = ((init.length + 1 : Nat) : Int) := by
+      simp [len]
+    simp only [List.map_append, List.map_cons, List.map_nil, hlen, getI_last, ok_bind, pure_eq_ok]
+    by_cases hi : init = []
+    · subst hi
+      simp
+    · have hl : init.length ≠ 0 := fun c => hi (List.eq_nil_of_length_eq_zero c)
+      have hgt : decide (((init.length + 1 : Nat) : Int) > 1) = true := by
+        simp only [decide_eq_true_eq]; omega
+      simp only [hgt, if_true, ok_bind]
+      by_cases hz : z = 0
+      · subst hz
+        simp [hi, popLast]
+      · have : ((z : Int) == 0) = false := by simp only [beq_eq_false_iff_ne, ne_eq]; omega
+        simp [hi, hz, this]
+  case hb0 => rfl
+  simp only [ok_bind]
+  have hS : ∀ x ∈ stripTrailing F, x < 128 := fun x hx => hF x (stripTrailing_mem F x hx)
+  generalize stripTrailing F = S at hS
+  rw [slice_to_last, slice_from_last]
+  rw [listGen_ok (fun septet : Int => (pure (bor septet 128) : PyM Int)) (fun x : Int => bor x 128) _ (fun x _ => rfl), ok_bind]
+  rw [← List.map_dropLast, List.map_map, List.length_map, ← List.map_drop]
+  have e : (fun x : Int => bor x 128) ∘ (fun x : Nat => (x : Int)) = (fun x : Nat => (x : Int)) ∘ (fun s : Nat => Nat.lor s 128) := by
+    funext x; rfl
+  rw [e, ← List.map_map, ← List.map_append, toBytes_map, flagAllButLast_eq]
+  intro x hx
+  simp only [List.mem_append, List.mem_map] at hx
+  rcases hx with ⟨y, hy, rfl⟩ | hx
+  · have := hS y (List.dropLast_subset _ hy)
+    exact Nat.or_lt_two_pow (n := 8) (by omega) (by decide)
+  · have := hS x (List.mem_of_mem_drop hx)
+    omega
+
+
 end Dmr.Transl.Mbxml
